@@ -294,12 +294,30 @@ let wpath_case id e0 progs sched =
        Printf.sprintf " t%d=%s" i (if traces.(i) = [] then "-" else String.concat "," (List.rev traces.(i))))))
     (if g.bad then " model_bad=1" else "")
 
+(* ---- stand-alone tree with the ticket claims shaped as the source has them (trx_tstep src_claims:
+   a load; store claim is two steps): runs a given schedule of (thread, start-node hash) entries, every
+   thread 0..n-1 performs one arrival; prints the ghost log (thread:result:arrivals started) *)
+let treex_case id e n sched =
+  let progf t = if int_of_nat t < n then S O else O in
+  let p = n_of_int 0 in
+  let c = ref (tr_init p, trx_locals progf) in
+  List.iter (fun s ->
+    match String.split_on_char '.' s with
+    | [tid; st] -> c := step (trx_tstep src_claims (nat_of_int e) p) !c (nat_of_int (int_of_string tid), nat_of_int (int_of_string st))
+    | _ -> ()) (split_on ',' sched);
+  let g = fst !c in
+  let pend = List.length (List.filter (fun i -> (snd !c (nat_of_int i)).tpx <> None) (List.init n (fun i -> i))) in
+  let log = List.rev_map (fun ((t, b), s) -> Printf.sprintf "%d:%d:%d" (int_of_nat t) (if b then 1 else 0) (int_of_nat s)) g.trlog in
+  Printf.printf "OUT TREEX %s E=%d started=%d pending=%d log=%s\n" id e (int_of_nat g.tre.started) pend
+    (if log = [] then "-" else String.concat "," log)
+
 let () =
   try
     while true do
       let line = input_line stdin in
       match String.split_on_char ' ' line with
       | ["IN"; "BAR"; id; e0; _p; progs; sched] -> bar_case id (int_of_string e0) progs sched
+      | ["IN"; "TREEX"; id; e; n; sched] -> treex_case id (int_of_string e) (int_of_string n) sched
       | ["IN"; "LSEQ"; id; count; ops] -> lseq_case id (int_of_string count) ops
       | ["IN"; "WPATH"; id; e0; progs; sched] -> wpath_case id (int_of_string e0) progs sched
       | ["IN"; "OSEQ"; id; k; plan] -> oseq_case id (int_of_string k) plan
